@@ -749,6 +749,81 @@ func ruleConfigRMWNoWait(c *Ctx) {
 	}
 }
 
+// ruleRevertPersistsSnapshot: a change that was persisted and then has to be
+// taken back (a later step failed) is undone in both places, memory first: the
+// re-persist whose error is only logged writes whatever is served at that
+// moment, so it must come after the snapshot was put back. Persisting first
+// stores the rejected configuration a second time — the served one is the old
+// one, the next leader loads the rejected one.
+func ruleRevertPersistsSnapshot(c *Ctx) {
+	P := c.P
+	rule := c.Prop + "/snapshot-rollback"
+	persist := P.Method(cfgPkg, "PersistOptions", "Persist")
+	sites, _ := c.nonScaffoldCallers(persist)
+	done := map[*ssa.Function]bool{}
+	n := 0
+	for _, s := range sites {
+		fn := s.Caller
+		if done[fn] || fnPkgPath(fn) == modPath+"/"+cfgPkg {
+			continue
+		}
+		done[fn] = true
+		isSetter := func(x ssa.Instruction) (*ssa.Call, bool) {
+			cl, ok := x.(*ssa.Call)
+			if !ok || cl.Call.StaticCallee() == nil {
+				return nil, false
+			}
+			f := cl.Call.StaticCallee()
+			if fnPkgPath(f) != modPath+"/"+cfgPkg || !strings.HasPrefix(f.Name(), "Set") || f.Signature.Recv() == nil {
+				return nil, false
+			}
+			rn := namedOf(f.Signature.Recv().Type())
+			return cl, rn != nil && rn.Obj().Name() == "PersistOptions" && len(callArgs(&cl.Call)) == 1
+		}
+		fromSnapshot := func(cl *ssa.Call) bool {
+			getter := "Get" + strings.TrimPrefix(cl.Call.StaticCallee().Name(), "Set")
+			return derivesFrom(callArgs(&cl.Call)[0], func(v ssa.Value) bool {
+				g, _ := callOf(v)
+				return g != nil && g.Call.StaticCallee() != nil && g.Call.StaticCallee().Name() == getter
+			}, 6)
+		}
+		restored := &calledEv{name: "the snapshot was put back since the last change of the served section",
+			match: func(x ssa.Instruction) bool { cl, ok := isSetter(x); return ok && fromSnapshot(cl) },
+			reset: func(x ssa.Instruction) bool { cl, ok := isSetter(x); return ok && !fromSnapshot(cl) }}
+		k := 0
+		for _, pc := range callsIn(fn, false, F(persist)) {
+			pcv, ok := pc.(*ssa.Call)
+			if !ok {
+				continue
+			}
+			// only the re-persist: its error does not reach a return
+			returned := false
+			for _, b := range fn.Blocks {
+				if r, ok := b.Instrs[len(b.Instrs)-1].(*ssa.Return); ok && len(r.Results) > 0 {
+					if derivesFrom(retVal(r, len(r.Results)-1), func(x ssa.Value) bool { return x == ssa.Value(pcv) }, 6) {
+						returned = true
+					}
+				}
+			}
+			if returned {
+				continue
+			}
+			// … and it follows an earlier Persist in the same function (a change that had been stored)
+			earlier := &calledEv{name: "an earlier Persist", match: func(x ssa.Instruction) bool {
+				return x != ssa.Instruction(pcv) && instrCallMatcher(F(persist))(x)
+			}}
+			k++
+			n++
+			target := pcv
+			c.need(rule, fn, fmt.Sprintf("re-persist #%d after a later step failed", k), func(x ssa.Instruction) bool { return x == ssa.Instruction(target) }, []Ev{earlier, restored},
+				func(h []bool) bool { return !h[0] || h[1] }, "the re-persist of a revert writes the restored snapshot: the served section is set back first")
+		}
+	}
+	if n == 0 {
+		c.Undec(rule, "re-persist of a revert (SetReplicationModeConfig)", "at least 1", "", "0")
+	}
+}
+
 // ruleOmittedOnlyWhenAlwaysZero: the persisted value is the JSON of the section
 // structs, and a reload starts from the defaults. A field tagged `omitempty`
 // therefore comes back as its *default* whenever its zero value was accepted —
@@ -812,7 +887,7 @@ func init() {
 	register("C18", "Dynamic configuration changes are validated, atomic and durable", func(c *Ctx) {
 		c.Group("C18/validated-first", "each setter validates its parameter before it changes the served options", func() { ruleValidatedBeforePublished(c) })
 		c.Group("C18/domain", "domain checks: ratios, registered scheduler types (every entry), isolation level ∈ location labels, non-negative flow digit", func() { ruleDomainAtoms(c) })
-		c.Group("C18/snapshot-rollback", "every function that mutates the served options, persists and returns the error restores each mutated section from a snapshot taken before the first mutation", func() { ruleSnapshotRollback(c) })
+		c.Group("C18/snapshot-rollback", "every function that mutates the served options, persists and returns the error restores each mutated section from a snapshot taken before the first mutation", func() { ruleSnapshotRollback(c); ruleRevertPersistsSnapshot(c) })
 		c.Group("C18/served-config-not-shared", "configuration objects handed to API code are clones", func() { ruleServedConfigNotShared(c) })
 		c.Group("C18/reload-identity", "the reload-time migration of deprecated flags leaves values written by this version unchanged", func() { ruleReloadMigration(c) })
 		c.Group("C18/memo-after-outcome", "(shared with C17) the storage layer remembers nothing about a config write whose outcome is still open: a cached copy of the stored value is updated only after the write succeeded", func() { ruleStorageMemoAfterOutcome(c) })
